@@ -18,6 +18,10 @@ What is modelled (src/dataset_processor.py, src/file_utils.py, src/assignment_io
   dropProcessed    the `_processed` locks are removed before the per-chromosome files are merged (and deleted)
   locksFirst       the final clean-up removes the lock files before the data files
   countUnaligned   a resumed run that skips read collection still counts the unaligned reads of the BAM files
+  flushSqanti      (`--sqanti_output`) the per-chromosome SQANTI-like table is flushed before the `_processed` lock
+  resetCounter     the process-wide alignment counter is reset at the start of *every* experiment, on every path
+                   (off: only where reads are collected — a later experiment whose collection is skipped on resume
+                   reports the unaligned reads of the earlier experiments as well)
 -/
 namespace IsoVerif.Model.Resume
 
@@ -26,6 +30,7 @@ abbrev Chr := Nat
 /-- per-sample output streams that are produced per chromosome and merged -/
 inductive Stream where
   | bed | assign | gtf | r2t | ext          -- printers (kept open until the printer object dies)
+  | sq                                       -- `--sqanti_output`: the SQANTI-like table (a printer, opened twice per task)
   | gene | tr | model                        -- ungrouped counters (+ `.stats` side file)
   | geneG | trG | modelG                     -- grouped counters (matrix + linear file)
   deriving DecidableEq, Repr
@@ -131,12 +136,14 @@ structure Variant where
   countUnaligned : Bool
   cleanBeforeParams : Bool   -- a fresh run removes the lock files of an earlier run before it saves `.params`
   dropAtDumpPrefix : Bool    -- the `_processed` locks are dropped where they were written (next to the save files)
+  flushSqanti : Bool         -- the SQANTI-like table of a chromosome is flushed before its `_processed` lock
+  resetCounter : Bool        -- the alignment counter is reset at the start of every experiment, on every path
   deriving DecidableEq, Repr
 
 /-- the repaired code (the current /repo) -/
-def fixed : Variant := ⟨true, true, true, true, true, true⟩
+def fixed : Variant := ⟨true, true, true, true, true, true, true, true⟩
 /-- the code as pinned -/
-def pinned : Variant := ⟨false, false, false, false, false, true⟩
+def pinned : Variant := ⟨false, false, false, false, false, true, true, true⟩
 
 inductive RG where
   | none      -- no --read_group
@@ -154,6 +161,9 @@ structure Cfg where
   unmapped : Bool       -- the BAM files contain unaligned reads
   fromSaves : Bool      -- `--read_assignments <prefix>`: no read collection; the `save`/`multimap`/`info`/`processed`/
                         -- `readStat`/`trStat` paths are then the files next to the user's save files (dump_filename)
+  sqanti : Bool := false   -- `--sqanti_output`
+  carried : Bool := false  -- this is a second or later experiment of the invocation and an earlier one has unaligned
+                           -- reads: the process-wide alignment counter is not zero when this experiment starts
   deriving Repr
 
 def aggPrinters (cfg : Cfg) : List Stream := .bed :: (if cfg.genedb then [.assign] else [])
@@ -161,8 +171,9 @@ def ungroupedGlobal (cfg : Cfg) : List Stream := if cfg.genedb then [.gene, .tr]
 def groupedGlobal (cfg : Cfg) : List Stream := if cfg.genedb && cfg.rg != .none then [.geneG, .trG] else []
 def modelGrouped (cfg : Cfg) : List Stream := if cfg.rg != .none then [.modelG] else []
 def gffStreams (cfg : Cfg) : List Stream := .gtf :: .r2t :: (if cfg.genedb then [.ext] else [])
-/-- streams whose per-chromosome file stays open until the printer dies -/
-def printerStreams (cfg : Cfg) : List Stream := aggPrinters cfg ++ gffStreams cfg
+def sqStreams (cfg : Cfg) : List Stream := if cfg.sqanti then [.sq] else []
+/-- streams whose per-chromosome file stays open until the printer dies (in the order in which they are flushed) -/
+def printerStreams (cfg : Cfg) : List Stream := aggPrinters cfg ++ sqStreams cfg ++ gffStreams cfg
 def ungrouped (cfg : Cfg) : List Stream := ungroupedGlobal cfg ++ [.model]
 def grouped (cfg : Cfg) : List Stream := groupedGlobal cfg ++ modelGrouped cfg
 
@@ -255,6 +266,7 @@ def collectPost (cfg : Cfg) (sk : Bool) : Stage := fun fs =>
     per-chromosome files (`main = part · c`) -/
 def aggInit (cfg : Cfg) (main lin : Stream → Path) : List Ev :=
   (aggPrinters cfg).map (fun s => Ev.create (main s))
+  ++ (sqStreams cfg).map (fun s => Ev.create (main s))
   ++ (ungroupedGlobal cfg).map (fun s => Ev.create (main s))
   ++ [Ev.create (main .model)]
   ++ (grouped cfg).flatMap (fun s => [Ev.create (main s), Ev.create (lin s)])
@@ -276,17 +288,22 @@ def constructChr (v : Variant) (cfg : Cfg) (resume : Bool) (c : Chr) : Stage := 
   else
     -- the info file (binary, no terminator) is read silently when truncated: everything computed here depends on it
     let t := tokOf (fs.good .info)
-    let printerCommits := (printerStreams cfg).map (fun s => Ev.commit (.part s c) t)
+    -- the streams flushed before the lock is written, and those that reach the disk only when their printer dies
+    let early (s : Stream) : Bool := v.flushBeforeLock && (v.flushSqanti || s != .sq)
+    let commits (b : Bool) : List Ev :=
+      ((printerStreams cfg).filter (fun s => early s == b)).map (fun s => Ev.commit (.part s c) t)
     Act.load (.multimap c)
-    :: evs (aggInit cfg (fun s => .part s c) (fun s => .partLin s c))
+    :: evs (aggInit cfg (fun s => .part s c) (fun s => .partLin s c)
+            -- the task opens the SQANTI-like table a second time (its own SqantiTSVPrinter on the aggregator's file)
+            ++ (sqStreams cfg).map (fun s => Ev.create (.part s c)))
     ++ [Act.load (.save c)]
     ++ evs ((ungroupedGlobal cfg).flatMap (dumpUngrouped c t) ++ (groupedGlobal cfg).flatMap (dumpGrouped c t)
             ++ [.create (.readStat c), .commit (.readStat c) t]
             ++ dumpUngrouped c t .model ++ (modelGrouped cfg).flatMap (dumpGrouped c t)
             ++ [.create (.trStat c), .commit (.trStat c) t]
-            ++ (if v.flushBeforeLock then printerCommits else [])
+            ++ commits true
             ++ [.create (.processed c)]
-            ++ (if v.flushBeforeLock then [] else printerCommits))
+            ++ commits false)
 
 /-- (repaired code) the `_processed` locks are removed before merging -/
 def dropStage (v : Variant) (cfg : Cfg) : Stage := fun fs =>
@@ -331,9 +348,15 @@ def stepActs (cfg : Cfg) (unal : Bool) (fs : FS) : MStep → List Act
   | .ungrouped s => mergeUngrouped cfg unal fs s
   | .grouped s => mergeGrouped cfg fs s
 
+/-- `--sqanti_output`: `merge_files(out_t2t_tsv, …, open(out_t2t_tsv, "w"))` after merge_assignments — the final table is
+    opened once more, then the per-chromosome tables are copied and removed -/
+def sqMerge (cfg : Cfg) : List Act :=
+  (sqStreams cfg).flatMap (fun s => Act.ev (.create (.final s)) :: rmParts cfg (Path.part s))
+
 /-- the merges; the final printers are closed at the end (when process_assigned_reads returns) -/
 def mergeStage (cfg : Cfg) (unal : Bool) : Stage := fun fs =>
   (mergeSteps cfg).flatMap (stepActs cfg unal fs)
+  ++ sqMerge cfg
   ++ evs ((printerStreams cfg).map (fun s => Ev.commit (.final s) (tokOf (allGood fs (cfg.mchrs.map (Path.part s))))))
 
 def isSaveAux : Path → Bool
@@ -356,6 +379,13 @@ def cleanupLocks (v : Variant) (cfg : Cfg) : Stage := fun fs =>
 def globStage (sel : Path → Bool) (ord : List Path) : Stage := fun fs =>
   rmAll (ord.filter (fun p => sel p && fs.has p))
 
+/-- the `__not_aligned` line of the count tables is right: the unaligned reads of this experiment were counted (in a run
+    that collects reads; in a resumed run that skips collection only when it recounts them; with `--read_assignments`
+    nothing is ever counted) and the counter holds nothing of earlier experiments (it is reset at the start of every
+    experiment — `resetCounter` off: only where reads are collected) -/
+def unalOK (v : Variant) (cfg : Cfg) (sk : Bool) : Bool :=
+  (!sk || v.countUnaligned || cfg.fromSaves) && (v.resetCounter || !cfg.carried || !(sk || cfg.fromSaves))
+
 /-- `sk` = the stage lock exists and the run is resumed; with `--read_assignments` there is no collection at all,
     the number of unaligned reads is never counted (0 in every run) and nothing is cleaned up -/
 def stages (v : Variant) (cfg : Cfg) (ord : List Path) (resume sk : Bool) : List Stage :=
@@ -363,7 +393,7 @@ def stages (v : Variant) (cfg : Cfg) (ord : List Path) (resume sk : Bool) : List
   ++ cfg.chrs.map (collectChr v cfg resume (sk || cfg.fromSaves))
   ++ [collectPost cfg (sk || cfg.fromSaves), constructPre cfg]
   ++ cfg.chrs.map (constructChr v cfg resume)
-  ++ [dropStage v cfg, mergeStage cfg (!sk || v.countUnaligned || cfg.fromSaves)]
+  ++ [dropStage v cfg, mergeStage cfg (unalOK v cfg sk)]
   ++ (if cfg.keepTmp || cfg.fromSaves then []
       else [cleanupLocks v cfg, globStage isSaveAux ord, globStage isRgAux ord])
 
